@@ -12,7 +12,7 @@ authority, counters).  step : cfg -> heap -> op -> heap * res unit (32 ops); the
 mutated state the Python code leaves behind.  cfg : site -> bool says for each of the 12 defect sites whether its
 repair is applied; `current_cfg` (bottom of Model.v) is THE definition to edit when a fix lands; beside every site the
 repaired behaviour is the `c S... = true` branch.  STATE: /repo c5c2382 + dff454e repaired 10 sites (current_cfg = true
-there); open: SNodeOutputsOwned (graph input / initializer accepted as node output) and SGraphNew.  `original_cfg`
+there), 680d931 repaired SGraphNew; open: SNodeOutputsOwned (graph input / initializer accepted as node output).  `original_cfg`
 (all false) is the code before the repairs.
 
 THEOREMS (all closed under the global context):
@@ -98,6 +98,7 @@ from harness.props import _core_ops as C
 
 def run(ck) -> None:
     C.run_check(ck, "c01")
+    C.print_broken(ck)
     ck.level = "proof"
     ck.notes.append("C01_inv_reachable is proved as _partial for I3..I7: Graph(...) WITH arguments is outside in_scope "
                     "(carried by the correspondence check and the oracle only); I1 and I2 are proved for the whole alphabet")
